@@ -164,3 +164,30 @@ fn c05_trivial_solution_1c() {
     std::mem::forget(s1);
     std::mem::forget(s2);
 }
+
+/// C03-b: new_nvt over ALL f64 bit patterns of T, V, N (1 component): Ok echoes the inputs bitwise and they are
+/// finite and not sign-negative; Err(InvalidState) only if one of them is non-finite or sign-negative
+#[kani::proof]
+#[kani::stub(std::hash::RandomState::new, fixed_random_state)]
+#[kani::unwind(6)]
+fn c03_new_nvt_all_f64_1c() {
+    let eos = Arc::new(NoResidual(1));
+    let (t, v, n): (f64, f64, f64) = (kani::any(), kani::any(), kani::any());
+    let r = State::new_nvt(&eos, Temperature::from_reduced(t), Volume::from_reduced(v), &Moles::from_reduced(arr1(&[n])));
+    let (tq, vq, nq) = (Temperature::from_reduced(t).to_reduced(), Volume::from_reduced(v).to_reduced(), Moles::from_reduced(n).to_reduced());
+    match &r {
+        Ok(s) => {
+            assert!(same_bits(s.temperature.to_reduced(), tq));
+            assert!(same_bits(s.volume.to_reduced(), vq));
+            assert!(same_bits(s.moles.to_reduced()[0], nq));
+            assert!(valid(tq) && valid(vq) && valid(nq));
+            kani::cover!(true);
+        }
+        Err(EosError::InvalidState(_, _, _)) => {
+            assert!(!(valid(tq) && valid(vq) && valid(nq)));
+            kani::cover!(true);
+        }
+        Err(_) => assert!(false),
+    }
+    std::mem::forget(r);
+}
